@@ -84,6 +84,8 @@ type c20Env struct {
 	seq  int          // sequence number (varies the default value)
 	// model is the handler option of indexed configurations (for RebuildIndexes)
 	model resbadger.Model
+	// mapped: the model option has a Map callback adding the member zzmapped to what get serves
+	mapped bool
 }
 
 func (e *c20Env) open() error {
@@ -171,6 +173,21 @@ func (e *c20Env) open() error {
 			m := rb().Model()
 			if cfg.Default {
 				m = m.WithDefault(e.def)
+			} else if e.seq%3 == 2 {
+				// a mapping of what get serves (documented as concerning the get response only): the
+				// stored model with a marker added. Value() still hands out the stored model
+				e.mapped = true
+				m = m.WithMap(func(v interface{}) (interface{}, error) {
+					mm, ok := v.(map[string]interface{})
+					if !ok {
+						return nil, fmt.Errorf("Map callback got a %T", v)
+					}
+					out := map[string]interface{}{"zzmapped": true}
+					for k, x := range mm {
+						out[k] = x
+					}
+					return out, nil
+				})
 			}
 			opt = m
 		default:
@@ -378,6 +395,15 @@ func (e *c20Env) served(rid string) (string, bool) {
 	if e.cfg.Type == "collection" {
 		raw = rr.Result.Collection
 	}
+	if e.mapped {
+		// the get response went through the Map callback: the marker is there, the rest is the model
+		var mm map[string]interface{}
+		if json.Unmarshal(raw, &mm) != nil || mm["zzmapped"] != true {
+			return "not-mapped:" + string(raw), true
+		}
+		delete(mm, "zzmapped")
+		return canon(mm), true
+	}
 	return canon(json.RawMessage(raw)), true
 }
 
@@ -429,6 +455,13 @@ func c20Burst(c *core.Ctx, e *c20Env, rids []string, states map[string]interface
 				got = canon(json.RawMessage(rr.Result.Collection))
 			case rr.Result != nil:
 				got = canon(json.RawMessage(rr.Result.Model))
+				if e.mapped {
+					var mm map[string]interface{}
+					if json.Unmarshal(rr.Result.Model, &mm) == nil && mm["zzmapped"] == true {
+						delete(mm, "zzmapped")
+						got = canon(mm)
+					}
+				}
 			}
 		}
 		if want := e.expectServed(states[p.rid]); got != want {
